@@ -5,7 +5,7 @@ WORDS = ["foo", "bar", "Baz", "x", "y z", "1", "äö", "日本", "𝒳", "a b", 
 TAGS = ["b", "i", "span", "div", "ref", "small", "code", "s", "u", "center"]
 UNPARSED = ["nowiki", "pre", "math", "gallery", "source", "syntaxhighlight"]
 SINGLE = ["br", "hr", "li", "dt", "dd", "wbr"]
-ENTS = ["amp", "nbsp", "lt", "Sigma", "thetasym", "#32", "#x41", "#1234", "#x10FFFF", "eacute"]
+ENTS = ["amp", "nbsp", "lt", "Sigma", "thetasym", "#32", "#x41", "#1234", "#x10FFFF", "eacute", "#X3A3", "#Xe9", "#00065"]
 SCHEMES = ["http://", "https://", "ftp://", "mailto:", "//", "irc://", "news:", "gopher://"]
 
 ATOMS = ["{{", "}}", "{{{", "}}}", "[[", "]]", "[", "]", "|", "=", "==", "===", "\n", "\n\n", " ", "<", ">", "</", "/>",
